@@ -36,8 +36,14 @@ Record reqst := { q_method : Z; q_path : Z; q_hdr : hdrs; q_body : list Z }.
 
 (* The server's own http.ResponseWriter (net/http contract):
    p_hdr = the live header map; p_sent = status and header snapshot taken by the first WriteHeader
-   (explicit or implied by the first Write); p_body = bytes written. *)
-Record respst := { p_hdr : hdrs; p_sent : option (Z * hdrs); p_body : list Z }.
+   (explicit or implied by the first Write or Flush); p_body = bytes written; p_info = the informational
+   (1xx) responses sent before it, each with the header map as it was at that moment.
+   TRUSTED net/http contract for WriteHeader(code) (server.go, h2 likewise): once the final header is written
+   every further WriteHeader is ignored ("superfluous"); before that, 100 <= code <= 199 (except 101) sends an
+   interim response and does NOT commit the header, any other code commits it.  Flush commits 200 if nothing
+   was committed yet. *)
+Record respst := { p_hdr : hdrs; p_sent : option (Z * hdrs); p_body : list Z; p_info : list (Z * hdrs) }.
+Definition is_info (c : Z) : bool := (100 <=? c)%Z && (c <=? 199)%Z && negb (c =? 101)%Z.
 
 Inductive event :=
 | EEnter (i : Z) | EExit (i : Z)                       (* a recording middleware i before / after next *)
@@ -67,23 +73,29 @@ Record writer := {
   wr_set : Z -> Z -> world -> world;      (* w.Header().Set(k, v) *)
   wr_hdr : world -> hdrs;                 (* reading w.Header() *)
   wr_status : Z -> world -> world;        (* w.WriteHeader(code) *)
-  wr_write : list Z -> world -> world     (* w.Write(bytes) *)
+  wr_write : list Z -> world -> world;    (* w.Write(bytes) *)
+  wr_flush : world -> world               (* if f, ok := w.(http.Flusher); ok { f.Flush() } *)
 }.
 
 Definition base_set (k v : Z) (s : world) : world :=
-  let p := w_resp s in set_resp {| p_hdr := upd k v (p_hdr p); p_sent := p_sent p; p_body := p_body p |} s.
+  let p := w_resp s in set_resp {| p_hdr := upd k v (p_hdr p); p_sent := p_sent p; p_body := p_body p; p_info := p_info p |} s.
 Definition base_status (c : Z) (s : world) : world :=
   let p := w_resp s in
   match p_sent p with
   | Some _ => s                                            (* superfluous WriteHeader: ignored *)
-  | None => set_resp {| p_hdr := p_hdr p; p_sent := Some (c, p_hdr p); p_body := p_body p |} s
+  | None =>
+      if is_info c
+      then set_resp {| p_hdr := p_hdr p; p_sent := None; p_body := p_body p; p_info := p_info p ++ [(c, p_hdr p)] |} s
+      else set_resp {| p_hdr := p_hdr p; p_sent := Some (c, p_hdr p); p_body := p_body p; p_info := p_info p |} s
   end.
 Definition base_write (bs : list Z) (s : world) : world :=
   let s1 := base_status 200 s in                           (* first Write implies WriteHeader(200) *)
   let p := w_resp s1 in
-  set_resp {| p_hdr := p_hdr p; p_sent := p_sent p; p_body := p_body p ++ bs |} s1.
+  set_resp {| p_hdr := p_hdr p; p_sent := p_sent p; p_body := p_body p ++ bs; p_info := p_info p |} s1.
+Definition base_flush (s : world) : world := base_status 200 s.   (* Flush: if !wroteHeader { WriteHeader(200) } *)
 Definition base : writer :=
-  {| wr_set := base_set; wr_hdr := fun s => p_hdr (w_resp s); wr_status := base_status; wr_write := base_write |}.
+  {| wr_set := base_set; wr_hdr := fun s => p_hdr (w_resp s); wr_status := base_status; wr_write := base_write;
+     wr_flush := base_flush |}.
 
 (* what net/http does when the handler chain returns: an unsent header goes out as 200 *)
 Definition finish (s : world) : world := base_status 200 s.
@@ -103,7 +115,8 @@ Inductive hprog :=
 | HGetHdr (k : hdrs -> hprog)                  (* w.Header() *)
 | HSetHdr (key v : Z) (k : hprog)              (* w.Header().Set(key, v) *)
 | HStatus (c : Z) (k : hprog)                  (* w.WriteHeader(c) *)
-| HWrite (bs : list Z) (k : hprog).            (* w.Write(bs) *)
+| HWrite (bs : list Z) (k : hprog)             (* w.Write(bs) *)
+| HFlush (k : hprog).                          (* flush if the writer can: w.(http.Flusher) *)
 
 Fixpoint run_h (h : hprog) (w : writer) (s : world) : world :=
   match h with
@@ -122,6 +135,7 @@ Fixpoint run_h (h : hprog) (w : writer) (s : world) : world :=
   | HSetHdr key v k => run_h k w (wr_set w key v s)
   | HStatus c k => run_h k w (wr_status w c s)
   | HWrite bs k => run_h k w (wr_write w bs s)
+  | HFlush k => run_h k w (wr_flush w s)
   end.
 
 (* ---------- logRequest.go (fixed: the body is restored) ---------- *)
@@ -146,7 +160,8 @@ Definition wrap_writer (id : nat) (w : writer) : writer :=
      wr_status := fun c s =>                                    (* *statusCode = c; inner.WriteHeader(c) *)
        wr_status w c (set_cells (cell_upd id (fun '(_, b) => (c, b)) (w_cells s)) s);
      wr_write := fun bs s =>                                    (* body.Write(bs); inner.Write(bs) *)
-       wr_write w bs (set_cells (cell_upd id (fun '(c, b) => (c, b ++ bs)) (w_cells s)) s) |}.
+       wr_write w bs (set_cells (cell_upd id (fun '(c, b) => (c, b ++ bs)) (w_cells s)) s);
+     wr_flush := wr_flush w |}.                                 (* fixed (F13d): Flush() forwards to the inner writer *)
 Definition log_response : middleware := fun next w s =>
   let id := length (w_cells s) in                               (* newResponseWriterWrapper(w) *)
   let s1 := set_cells (w_cells s ++ [(200%Z, [])]) s in
@@ -196,10 +211,11 @@ Definition is_logger_event (e : event) : bool :=
 (* everything recorded by handlers and recording middleware, in order *)
 Definition visible_log (s : world) : list event := filter (fun e => negb (is_logger_event e)) (w_log s).
 (* what the client receives: status, headers as sent, body *)
-Definition client_view (s : world) : option (Z * hdrs) * list Z := (p_sent (w_resp s), p_body (w_resp s)).
+Definition client_view (s : world) : option (Z * hdrs) * list Z * list (Z * hdrs) :=
+  (p_sent (w_resp s), p_body (w_resp s), p_info (w_resp s)).
 
 Definition init_world (q : reqst) : world :=
-  {| w_req := q; w_resp := {| p_hdr := []; p_sent := None; p_body := [] |}; w_cells := []; w_log := [] |}.
+  {| w_req := q; w_resp := {| p_hdr := []; p_sent := None; p_body := []; p_info := [] |}; w_cells := []; w_log := [] |}.
 
 (* ---------- route table (serverConfig.AddRoute, New*Provider, ServeMux) ---------- *)
 Section Table.
